@@ -92,6 +92,21 @@ fn run_ops_both(ctx: &mut Ctx, prop: &str, pshape: (usize, usize), win: Win, rec
             if o != Outcome::Failed {
                 ctx.nontrivial((prop, recv, wsize, pshape, win, *op, o == Outcome::Accepted, "Tok"));
             }
+            // zero-sized elements: contents are indistinguishable, but accept/reject, panics and drop
+            // conservation are still judged
+            if matches!(op, Op::Fill | Op::Swap(..) | Op::SwapRows(..) | Op::SwapCols(..) | Op::RowPair(..) | Op::Sort(..) | Op::Translate(..) | Op::FlipRows | Op::FlipCols | Op::CloneFromSlice(_) | Op::CloneFromToodee(..)) {
+                let o = run_op::<Zst>(ctx, &oc);
+                if o != Outcome::Failed {
+                    ctx.nontrivial((prop, recv, wsize, pshape, win, *op, o == Outcome::Accepted, "Zst"));
+                }
+            }
+        }
+        // 1- and 2-byte Copy elements for the copy family (paths specialised on the element size)
+        if matches!(op, Op::CopyFromSlice(_) | Op::CopyFromToodee(..) | Op::CopyWithin(..) | Op::CloneFromSlice(_)) {
+            let o = if (wsize.0 + wsize.1) % 2 == 0 { run_op::<Sm8>(ctx, &oc) } else { run_op::<Sm16>(ctx, &oc) };
+            if o != Outcome::Failed {
+                ctx.nontrivial((prop, recv, wsize, pshape, win, *op, o == Outcome::Accepted, "Sm"));
+            }
         }
     }
 }
